@@ -5,6 +5,7 @@ import Orx.GenThms.Slice
 import Orx.GenThms.Vec
 import Orx.GenThms.Arr
 import Orx.GenThms.Range
+import Orx.GenThms.Iter
 /-! # C11 try_get_len / has_more are truthful; 'No' is definitive -/
 namespace Orx.Props.C11
 open Orx Orx.KS
@@ -64,5 +65,16 @@ theorem source_try_get_len (len a b c : Nat) (evs dr) :
     Arr.try_get_len len (arr len) (st c evs dr) = .ok (some (lenOf len c)) (st c (evs ++ [.ld (.ctr 0) .acquire c]) dr) ∧
     Range.try_get_len (range a b) (st c evs dr) = .ok (some (lenOf (b - a) c)) (st c (evs ++ [.ld (.ctr 0) .acquire c]) dr) :=
   ⟨slice_try_get_len len c evs dr, vec_try_get_len len c evs dr, arr_try_get_len len c evs dr, range_try_get_len a b c evs dr⟩
+
+
+open Orx.RS Orx.Gen Orx.GenThms in
+/-- **`try_get_len` of the wrapper as in the source** is the model's query: `completed` first (`SeqCst`), then — only
+for a source that claimed an exact length — the reserved counter (`Acquire`); the answer is `IWF.lenOut`, the function
+`iter_completed_reports_zero` / `iter_exact_hint` / `iter_report_monotone` are about -/
+theorem source_iter_try_get_len (init : Option Nat) (R Y : Nat) (C : Bool) (evs : List Ev) :
+    Iter.try_get_len (iter init) (ist R Y C evs) =
+      .ok (IWF.lenOut init C R)
+        (ist R Y C (evs ++ [.ld .C .seqcst (if C then 1 else 0)] ++ (if C = false ∧ init.isSome then [.ld .R .acquire R] else []))) :=
+  iter_try_get_len init R Y C evs
 
 end Orx.Props.C11
